@@ -279,7 +279,12 @@ big numbers (numbers).  `rtSide norm g T` (decidable) says:
   field without a tag — which the bridge does not carry — holds its zero value;
 * no `cty.Value` below a slice, array or map (a cty list/map has one element type),
   and no `cty.NilVal` (the invalid zero `cty.Value`) in a bridged position.
-The first two are exactly the two recorded known findings; see the counterexamples. -/
+The first two are exactly the two recorded known findings; see the counterexamples.
+Mis-tagged structs are excluded for a reason of their own: of two fields with one tag
+`structTagIndices` keeps the later (the earlier field is silently not bridged), and a tag
+that is not NFC never matches the normalised attribute name (`ToCtyValue` writes null for
+it, `FromCtyValue` reports a missing attribute).  What the code does there is modelled
+(`effTags`, `impliedStruct`) and corresponded, but it is not a round trip. -/
 
 /-- nil ↔ null, stated on its own: a nil slice, map or pointer converts to the null
 value of the wanted type, and a null list / map / anything-through-a-pointer decodes
@@ -367,7 +372,7 @@ theorem impliedType_refuses (norm : String → String) (n : Nat) (e : GoTy) (tag
     (∃ c, impliedType norm (.array n e) = .err c) ∧ (∃ c, impliedType norm .bigInt = .err c) ∧
     (∃ c, impliedType norm .bigFloat = .err c) ∧ (∃ c, impliedType norm (.struct tags tys) = .err c) ∧
     (∃ c, impliedType norm (.ptr (.ptr (.array n e))) = .err c) :=
-  ⟨⟨_, rfl⟩, ⟨_, rfl⟩, ⟨_, rfl⟩, ⟨"no cty field tags", by simp [impliedType, impliedG, h]⟩, ⟨_, rfl⟩⟩
+  ⟨⟨_, rfl⟩, ⟨_, rfl⟩, ⟨_, rfl⟩, ⟨"no cty field tags", by simp [impliedType, impliedG, impliedStruct, taggedNames_effTags_nil tags h]⟩, ⟨_, rfl⟩⟩
 
 /-- … and where it succeeds the bridge type is the same type: the round trip above
 is, for those Go types, the round trip through `ImpliedType` itself. -/
